@@ -175,7 +175,7 @@ def gen_plan(ch, prof):
                 flt['dur'] = ch.choice('flt.dur', (1000, 20000, 300000, 2 * SEC, 7 * SEC))
             if flt['kind'] == 'stall':
                 flt['dir'] = ch.choice('flt.dir', (None, 'a2b', 'b2a'))
-            if flt['kind'] in ('slow', 'kill'):
+            if flt['kind'] in ('slow', 'kill', 'spurious'):
                 flt['node'] = ch.choice('flt.n', ('A', 'P'))
             _place(ch, 'flt', flt, prof)
             faults.append(flt)
@@ -407,6 +407,12 @@ class Harness:
                     pipe.stall_until = max(pipe.stall_until, until)
             wld.count('fault.stall')
             wld.log('fault', 'stall', flt.get('dir'), flt['dur'])
+        elif kind == 'spurious':
+            # the kernel reports the socket readable although nothing is there
+            sock = conn.socks[0 if flt.get('node', 'A') == 'A' else 1]
+            if not sock._closed and not sock.rxbuf:
+                sock.spurious_in = True
+                wld.log('fault', 'spurious', flt.get('node', 'A'))
         elif kind == 'blackhole':
             for pipe in (conn.a2b, conn.b2a):
                 pipe.blackhole = True
